@@ -45,12 +45,47 @@ def reserved_word_infeasible(F, val):
                     if k is None:
                         continue
                 rels.append((m.group(3), int(k), v))
+        for b, v in val.items():
+            bb = b.strip()
+            m = re.match(r'^(.*?)(?:\.[^.()]*)?empty\(\)$', bb)
+            if m and m.group(1).startswith(sp.split('.basic_string_view')[0]):
+                rels.append(('==', 0, v))
+            m = re.match(r'^\((\d+) == (.*?)(?:\.[^.()]*)?(size|length)\(\)\)$', bb)
+            if m and m.group(2).startswith(sp.split('.basic_string_view')[0]):
+                rels.append(('==', int(m.group(1)), v))
         if not rels:
             continue
         ok = lambda n: all({'<=': n <= k, '<': n < k, '>=': n >= k, '>': n > k, '==': n == k, '!=': n != k}[op] == v for op, k, v in rels)
         if not any(ok(len(r)) for r in _ROWS['rows']):
             return True
     return False
+
+
+def distinct_constants_infeasible(val):
+    """One term cannot equal two different constants: a valuation that makes `x == "C"` and `x == "C++"` (or the identity of x
+    with two different constant objects) true together is infeasible."""
+    import re
+    eqs = {}
+    for a, v in val.items():
+        if not v:
+            continue
+        a = a.strip()
+        sides = None
+        m = re.match(r'^operator==<[^()]*>\((.*), (.*)\)$', a)
+        if m:
+            sides = (m.group(1), m.group(2))
+        elif a.startswith('(') and a.endswith(')') and a.count(' == ') == 1:
+            l, r = a[1:-1].split(' == ')
+            sides = (l, r)
+        if not sides:
+            continue
+        for x, c in (sides, sides[::-1]):
+            if re.search(r'\bP\d+\b|\$this', c) or not re.search(r'"[^"]*"|^\d+$|nullptr', c):
+                continue            # c is not a constant
+            if not re.search(r'\bP\d+\b|\$this', x):
+                continue
+            eqs.setdefault(x, set()).add(c)
+    return any(len(cs) > 1 for cs in eqs.values())
 
 
 def named_constants(F):
@@ -131,7 +166,7 @@ def run(ck, F):
             sig = lambda p: json.dumps({k: v for k, v in p.items() if k not in ('when', 'stored_params')}, sort_keys=True)
             eq, wit = guards.equivalent([(p.get('when', ''), sig(p)) for p in want], [(p.get('when', ''), sig(p)) for p in paths],
                                         same=(lambda x, y, val, fid=fid: absorbed_qualification(fid, x, y, val)),
-                                        infeasible=(lambda val: reserved_word_infeasible(F, val)))
+                                        infeasible=(lambda val: reserved_word_infeasible(F, val) or distinct_constants_infeasible(val)))
             if eq:
                 ck.ok(R_paths, sid, detail='guards restructured, same outcome for every valuation of the atomic conditions')
                 for i, p in enumerate(paths):
